@@ -158,6 +158,50 @@ impl ClientBuilder {
         self.policy = p;
         self
     }
+    // Settings that have no counterpart in the simulated transport: accepted so that a change
+    // which sets them still builds, and ignored.
+    pub fn connect_timeout(self, _d: Duration) -> ClientBuilder {
+        self
+    }
+    pub fn read_timeout(self, _d: Duration) -> ClientBuilder {
+        self
+    }
+    pub fn pool_idle_timeout<D: Into<Option<Duration>>>(self, _d: D) -> ClientBuilder {
+        self
+    }
+    pub fn pool_max_idle_per_host(self, _n: usize) -> ClientBuilder {
+        self
+    }
+    pub fn user_agent<V: AsRef<str>>(self, _v: V) -> ClientBuilder {
+        self
+    }
+    pub fn default_headers(self, _h: HeaderMap) -> ClientBuilder {
+        self
+    }
+    pub fn gzip(self, _on: bool) -> ClientBuilder {
+        self
+    }
+    pub fn no_gzip(self) -> ClientBuilder {
+        self
+    }
+    pub fn tcp_nodelay(self, _on: bool) -> ClientBuilder {
+        self
+    }
+    pub fn tcp_keepalive<D: Into<Option<Duration>>>(self, _d: D) -> ClientBuilder {
+        self
+    }
+    pub fn http1_only(self) -> ClientBuilder {
+        self
+    }
+    pub fn https_only(self, _on: bool) -> ClientBuilder {
+        self
+    }
+    pub fn no_proxy(self) -> ClientBuilder {
+        self
+    }
+    pub fn referer(self, _on: bool) -> ClientBuilder {
+        self
+    }
     pub fn build(self) -> Result<Client> {
         Ok(Client {
             id: sim::next_client_id(),
@@ -194,6 +238,21 @@ pub struct RequestBuilder {
 }
 
 impl RequestBuilder {
+    /// Request headers, query additions and per-request settings are accepted and ignored by
+    /// the simulated transport (the server script sees the URL only).
+    pub fn header<K: AsRef<str>, V: AsRef<str>>(self, _k: K, _v: V) -> RequestBuilder {
+        self
+    }
+    pub fn headers(self, _h: HeaderMap) -> RequestBuilder {
+        self
+    }
+    pub fn timeout(mut self, d: Duration) -> RequestBuilder {
+        self.client.timeout = Some(d);
+        self
+    }
+    pub fn bearer_auth<T: std::fmt::Display>(self, _t: T) -> RequestBuilder {
+        self
+    }
     pub async fn send(self) -> Result<Response> {
         let mut url = self.url?;
         let origin = url.clone();
@@ -285,6 +344,16 @@ impl Response {
             all.extend_from_slice(&c);
         }
         Ok(bytes::Bytes::from(all))
+    }
+    pub fn error_for_status_ref(&self) -> Result<&Response> {
+        if self.status.is_client_error() || self.status.is_server_error() {
+            Err(Error::new(Kind::Status(self.status.as_u16()), Some(self.url.clone())))
+        } else {
+            Ok(self)
+        }
+    }
+    pub fn remote_addr(&self) -> Option<std::net::SocketAddr> {
+        None
     }
     pub async fn text(self) -> Result<String> {
         let b = self.bytes().await?;
